@@ -245,6 +245,16 @@ func enumerate(thorough bool) (sp spaces, extra map[string]any) {
 			}
 		}
 	}
+	// 4. busy host: K other calls inside plugins that do not answer, then a call whose context ends
+	ks := []int{4, 16, 64}
+	if thorough {
+		ks = []int{1, 4, 8, 9, 16, 64, 128}
+	}
+	for i, k := range ks {
+		for j, ctx := range []string{"deadline-1000ms", "cancel-1000ms"} {
+			sp.timing = append(sp.timing, Case{Cmd: commands[(i+j)%len(commands)], Exit: "0", Stdout: "valid", Stderr: "empty", Timing: tBusyPrefix + itoa(k), Ctx: ctx, Req: "small"})
+		}
+	}
 	extra["alphabet_commands"] = len(commands)
 	extra["alphabet_exits"] = len(exs)
 	extra["alphabet_stdout_cheap(metadata-only kinds included)"] = nso
@@ -262,10 +272,12 @@ type driver struct {
 	root string
 	seq  atomic.Int64
 
-	retries    atomic.Int64
-	envRetries atomic.Int64
-	envFailed  atomic.Int64
-	skipped    atomic.Int64
+	retries       atomic.Int64
+	envRetries    atomic.Int64
+	envFailed     atomic.Int64
+	eventCases    atomic.Int64
+	eventUnjudged atomic.Int64
+	skipped       atomic.Int64
 
 	mu           sync.Mutex
 	controls     map[string][2]int // per command: ok, failed
@@ -283,19 +295,31 @@ func (d *driver) run(c Case) result {
 		d.r.Eval(1) // warm-up call
 		return runInWorker(d.root, d.nextID("w"), c)
 	}
+	if isBusyHost(c.Timing) {
+		d.r.Eval(busyHolders(c.Timing))
+		return runBusyHost(d.root, d.nextID("b"), c)
+	}
+	// a plugin that answers at once, yet the call took seconds: the machine is starving this process; the host's own
+	// wall-clock pipe wait may then cut its readers short - nothing about such a call is judged
+	starved := func(res result) bool { return c.Timing == tImmediate && res.Returned && res.ElapsedMS > 3000 }
 	res := runCase(d.root, d.nextID("c"), c)
+	res.EnvFailure = res.EnvFailure || starved(res)
 	// the overloaded machine refused a process / starved the pipe readers: not a property of the code; try again
 	for attempt := 1; attempt <= 3 && res.EnvFailure; attempt++ {
 		time.Sleep(time.Duration(attempt) * 700 * time.Millisecond)
 		d.r.Eval(1)
 		d.envRetries.Add(1)
 		res = runCase(d.root, d.nextID("c"), c)
+		res.EnvFailure = res.EnvFailure || starved(res)
 	}
 	// "complete stderr, then killed by the context": when the machine is so loaded that the context ended before the
 	// plugin had finished printing, the case was not realised; it is run again with the context's delay doubled
 	// (a real context.WithTimeout / cancel every time; the 20 s bound is applied to every attempt)
 	if isErrThenSleep(c.Timing) && isCtxLimited(c.Ctx) {
 		kind, delay := ctxSpec(c.Ctx)
+		if delay < hx.Budget(2*time.Second) {
+			delay = hx.Budget(2 * time.Second) // what runCase used for the first attempt
+		}
 		// ... likewise when the call came back only seconds after its context had ended although nothing held the
 		// pipes: the host's wall-clock pipe wait may have cut the starved readers short (slowReturn, see judge)
 		for attempt := 1; attempt <= 6 && res.Setup == "" && res.Returned && (!res.Printed || slowReturn(res)); attempt++ {
@@ -323,6 +347,12 @@ func (d *driver) record(c Case, res result, replaying bool) {
 		return
 	}
 	d.r.Outcome(v.Class)
+	if isErrThenSleep(c.Timing) {
+		d.eventCases.Add(1)
+		if v.NotRealised {
+			d.eventUnjudged.Add(1)
+		}
+	}
 	for _, k := range v.Recorded {
 		d.r.Outcome("recorded:" + k)
 	}
@@ -582,6 +612,10 @@ func main() {
 	}
 	r.Extra["context_kill_cases_rerun_with_doubled_delay(informational)"] = d.retries.Load()
 	r.Extra["calls_rerun_after_environment_failure(informational)"] = d.envRetries.Load()
+	r.Extra["context_kill_cases_not_judged(plugin had not written before the context ended)"] = d.eventUnjudged.Load()
+	if n, all := d.eventUnjudged.Load(), d.eventCases.Load(); n*10 > all {
+		r.Capped(fmt.Sprintf("%d of the %d 'complete stderr, then killed by the context' cases could not be judged: the plugin had not written before the context ended", n, all))
+	}
 	if n := d.envFailed.Load(); n > 0 {
 		r.Capped(fmt.Sprintf("%d cases could not be judged: the machine had no process/memory/descriptor left or starved the pipe readers, also on 3 retries", n))
 	}
